@@ -125,6 +125,26 @@ fn scenario(name: &str, n: i64) {
                     vec![],
                 )
             };
+            if order == "intdesc" || order == "intmix" {
+                // staggered left ends: every new segment enters the status BELOW all the others ("intdesc") or alternately
+                // below and above ("intmix"); the clipping box ends before the rectangles do, so the sweep stops early
+                let d = 1.0 / 1024.0;
+                let w = n as f64 * d + 300.0;
+                let a = MultiPolygon(
+                    (0..n)
+                        .map(|i| {
+                            let y = if order == "intmix" && i % 2 == 1 { 2.0 * i as f64 } else { -2.0 * i as f64 };
+                            rect(i as f64 * d, y, w, y + 1.0)
+                        })
+                        .collect::<Vec<_>>(),
+                );
+                let b = MultiPolygon(vec![rect(-5.0, 0.25, n as f64 * d + 100.0, 0.75)]);
+                let r = a.intersection(&b);
+                assert!(r.0.len() == 1);
+                let r2 = b.intersection(&a);
+                assert!(r2.0.len() == 1);
+                return;
+            }
             let a = MultiPolygon((0..n).map(|i| rect(0.0, 2.0 * i as f64, 10.0, 2.0 * i as f64 + 1.0)).collect::<Vec<_>>());
             let b = MultiPolygon(vec![rect(-5.0, -3.0, 0.0, 0.5)]);
             let r = if order == "dif" { a.difference(&b) } else { a.intersection(&b) };
